@@ -48,4 +48,7 @@ UNITS = [
     U("C20.tagged_sha256", ["C20"], "harness/C20/tagged.c", "h_tagged_sha256", unwind=70, timeout=600, min_obl=10, replace=HASH,
       functions=["secp256k1_tagged_sha256", "secp256k1_sha256_initialize_tagged", "secp256k1_sha256_initialize"],
       note="hash stream contracts (C05) replace write/finalize; statics arbitrary at entry: no part of the stream can come from an earlier call; tag and message lengths <= 10000"),
+    U("C20.static_facts", ["C20"], "engine/static_facts.py", "script", script=["python3", "$VERIF/engine/static_facts.py", "--repo", "$REPO"], timeout=600,
+      functions=["(every function of the library TU: symbol table and goto program scan)"],
+      note="C20 supporting static fact: no static-lifetime object declared under src/ or include/ is written or address-taken by library code (goto-instrument symbol table + goto program scan; not a cbmc obligation)"),
 ]
